@@ -48,7 +48,9 @@ class ScaffoldNamer:
         "Unloc",
     }
 
-    def make_scaffold_name(self, scaffold: Scaffold, fragment_tags=None) -> None:
+    def make_scaffold_name(
+        self, scaffold: Scaffold, fragment_tags=None, input_name=None
+    ) -> None:
         """
         Using the tags from Pretext in the Scaffold, work out what the
         haplotype is, if it has been named, and what its rank is.
@@ -93,9 +95,10 @@ class ScaffoldNamer:
                     haplotype = self.get_set_haplotype(tag)
 
         # If we don't have a haplotype from a tag, try to get it from the
-        # first row of the scaffold
+        # first row of the scaffold (or, for a scaffold rebuilt from the input
+        # assembly, from the name of the input scaffold)
         if not haplotype:
-            haplotype = self.haplotype_from_first_row_name(scaffold)
+            haplotype = self.haplotype_from_first_row_name(scaffold, input_name)
 
         if primary_tag and not self.primary_haplotype:
             if not haplotype:
@@ -163,8 +166,8 @@ class ScaffoldNamer:
         scaffold.original_name = original_name
         scaffold.original_tags = scaffold_tags
 
-    def haplotype_from_first_row_name(self, scaffold):
-        if m := re.search(r"^([^_]+)_.+_\d+$", scaffold.rows[0].name):
+    def haplotype_from_first_row_name(self, scaffold, input_name=None):
+        if m := re.search(r"^([^_]+)_.+_\d+$", input_name or scaffold.rows[0].name):
             return self.get_set_haplotype(m.group(1))
         else:
             return None
